@@ -81,9 +81,35 @@ def magnitude_menu():
     return M
 
 
-def validate(sp, labels, precision, res, tmpdir):
+# (removals of network elements are left out on purpose: what they reach may refer to the removed element from the planning problems or leave a sign
+#  without referencing lanelet - not schema-expressible, hence outside this property's quantifier; reference clean-up is C10's subject)
+EDITS = ["translate_rotate", "remove_obstacle(30)", "remove_obstacle(31)", "remove_obstacle(32)"]
+
+
+def _edit(sc, pps, name):
+    """a public editing operation applied to the built scenario before it is written (the scenario reached by it is still schema-expressible)"""
+    import numpy as np
+    net = sc.lanelet_network
+    if name == "translate_rotate":
+        sc.translate_rotate(np.array([100.0, -50.0]), 0.5); pps.translate_rotate(np.array([100.0, -50.0]), 0.5)
+        return
+    fn, arg = name[:-1].split("(")
+    arg = int(arg)
+    if fn.startswith("net."):
+        getattr(net, fn[4:])(arg)
+        return
+    obj = {"remove_traffic_light": net.find_traffic_light_by_id, "remove_traffic_sign": net.find_traffic_sign_by_id, "remove_lanelet": net.find_lanelet_by_id,
+           "remove_intersection": net.find_intersection_by_id, "remove_obstacle": sc.obstacle_by_id}[fn](arg)
+    if obj is None:
+        raise LookupError(name)
+    getattr(sc, fn)(obj)
+
+
+def validate(sp, labels, precision, res, tmpdir, edit=None):
     from lxml import etree
     case = {"labels": list(labels), "precision": precision}
+    if edit is not None:
+        case["edit"] = edit
     res.evals += 1; res.transitions += 2; res.states += 1
     if labels:
         res.nontrivial += 1
@@ -93,6 +119,14 @@ def validate(sp, labels, precision, res, tmpdir):
         res.guarded += 1
         res.outcomes[f"spec-rejected-by-constructors:{type(e).__name__}"] += 1
         return
+    if edit is not None:
+        try:
+            _edit(sc, pps, edit)
+        except Exception as e:
+            res.guarded += 1          # the operation itself is the subject of C09 / C10 / C05
+            res.outcomes[f"edit-not-applicable:{type(e).__name__}"] += 1
+            return
+        labels = tuple(labels) + (f"then:{edit}",)
     fn = os.path.join(tmpdir, f"v{os.getpid()}.xml")
     try:
         if sum(map(ord, "".join(labels))) % 5 == 0:
@@ -165,6 +199,10 @@ def units(tier):
     for d in ((1, 4) if tier == "quick" else (1, 2, 4, 12)):
         for sh in range(8):
             u.append({"k": 2, "menu": "magnitude", "d": d, "shard": sh, "of": 8})
+    # scenarios reached by a public editing operation (removal of a network element / obstacle, rigid motion) from the base and from every
+    # deviation that concerns the references between network elements
+    for e in range(len(EDITS)):
+        u.append({"k": 3, "menu": "general", "edit": e, "d": 4})
     for sh in range(128):
         u.append({"k": 2, "menu": "general", "shard": sh, "of": 128, "slice": 16 if tier == "quick" else 1, "d": 4})
     return u
@@ -180,6 +218,19 @@ def run_unit(unit, tier):
                 validate(base, (), p, res, d)
             return res
         M = speclib.menu(FMT) if unit["menu"] == "general" else magnitude_menu()
+        if unit["k"] == 3:
+            validate(base, (), unit["d"], res, d, edit=EDITS[unit["edit"]])
+            for i in range(len(M)):
+                if M[i][0].split(".")[0] not in ("L1", "L2", "L3", "L4", "I20", "T11", "alias") and "refs" not in M[i][0]:
+                    continue
+                if M[i][0].split(".")[0] in ("L1", "L2", "L3") and not any(w_ in M[i][0] + M[i][1] for w_ in ("ref", "stop", "sign", "light", "succ", "pred", "adj")):
+                    continue
+                sp = copy.deepcopy(base)
+                if M[i][2](sp) is False:
+                    continue
+                validate(sp, (M[i][1],), unit["d"], res, d, edit=EDITS[unit["edit"]])
+            res.sample({"edit": EDITS[unit["edit"]]}, 1)
+            return res
         if unit["k"] == 1:
             rng = range(unit["lo"], unit["hi"]) if unit["menu"] == "general" else range(len(M))
             for i in rng:
@@ -219,7 +270,7 @@ def replay(case):
     for l in case["labels"]:
         allm[l][2](sp)
     d = tempfile.mkdtemp(prefix="c03_")
-    validate(sp, tuple(case["labels"]), case.get("precision", 4), res, d)
+    validate(sp, tuple(case["labels"]), case.get("precision", 4), res, d, edit=case.get("edit"))
     import shutil
     shutil.rmtree(d, ignore_errors=True)
     return [(s, dd) for s, dd, _ in res.violations]
